@@ -16,15 +16,15 @@ DEMONAME=zz_seed_demo_test.go
 cp $DEMO $D/$DEMONAME
 TESTS=$(grep -oE '^func (Test[A-Za-z0-9_]+)' $D/$DEMONAME | awk '{print $2}' | paste -sd'|')
 RACE=""; grep -qi -- '-race' $SRC/notes.md 2>/dev/null && RACE="-race"
-if go test -vet=off -count=1 $RACE -run "^($TESTS)\$" . >$D/.demo_clean.log 2>&1; then echo "demo-without-change: PASS"; else echo "demo-without-change: FAIL (bad demo)"; tail -5 $D/.demo_clean.log; fi
+if unshare -rn sh -c "ip link set lo up; go test -vet=off -count=1 $RACE -run '^($TESTS)\$' ." >$D/.demo_clean.log 2>&1; then echo "demo-without-change: PASS"; else echo "demo-without-change: FAIL (bad demo)"; tail -5 $D/.demo_clean.log; fi
 rm $D/$DEMONAME
 if ! git apply --check $SRC/patch.diff 2>/dev/null && ! patch -p1 --dry-run < $SRC/patch.diff >/dev/null 2>&1; then echo "PATCH DOES NOT APPLY"; exit 3; fi
 patch -p1 -s < $SRC/patch.diff
 if ! go build ./... 2>$D/.build.log; then echo "DOES NOT COMPILE"; cat $D/.build.log | head; exit 4; fi
-S1=$(go test -vet=off -count=1 ./... 2>&1 | tail -1); S2=$(go test -vet=off -count=1 ./... 2>&1 | tail -1)
+S1=$(unshare -rn sh -c 'ip link set lo up; go test -vet=off -count=1 ./... 2>&1' | tail -1); S2=$(unshare -rn sh -c 'ip link set lo up; go test -vet=off -count=1 ./... 2>&1' | tail -1)
 echo "suite-with-change: $S1 | $S2"
 cp $DEMO $D/$DEMONAME
-if go test -vet=off -count=1 $RACE -run "^($TESTS)\$" . >$D/.demo_mut.log 2>&1; then echo "demo-with-change: PASS (demo does not detect)"; else echo "demo-with-change: FAIL (as wanted)"; fi
+if unshare -rn sh -c "ip link set lo up; go test -vet=off -count=1 $RACE -run '^($TESTS)\$' ." >$D/.demo_mut.log 2>&1; then echo "demo-with-change: PASS (demo does not detect)"; else echo "demo-with-change: FAIL (as wanted)"; fi
 rm $D/$DEMONAME
 for p in $PROPS; do
   OUT=$(SPECVET_NOREPLAY=1 /verif/bin/specvet -property $p -repo $D -no-evidence 2>&1)
